@@ -754,7 +754,12 @@ def run(ctx):
     # ---- 1. translate ---------------------------------------------------------------
     try:
         M = H.read_all(ctx.repo)
-        texts = {"Gen_HyperLaws.v": H.emit_laws(M), "Gen_HyperInv.v": H.emit_inv(M), "Gen_HyperRef.v": H.emit_ref(M)}
+        texts = {"Gen_HyperLaws.v": H.emit_laws(M), "Gen_HyperInv.v": H.emit_inv(M)}
+        texts.update(H.emit_ref(M))
+        # composite chain rule (assembled stress = gradient of the composite energy) for the laws without direction invariants
+        iso = [n for n, L in M["laws"].items() if set(L["invs"]) <= {1, 2, 3} and all(k in (1, 2, 3) for (k, a) in L["dW"])]
+        for n in iso:
+            texts["Gen_HyperGrad_%s.v" % n] = H.emit_grad(M, M["laws"][n], tangent_block=(ctx.tier == "thorough"))
         for n, L in M["laws"].items():
             texts["Gen_Law_%s.v" % n] = H.emit_law_thms(L)
     except (TranslateError, SyntaxError, OSError, RecursionError) as ex:
@@ -777,6 +782,15 @@ def run(ctx):
         ctx.obligation("translate:discrete-gradient+midpoint", False, str(ex))
         ctx.violation("translate:energy", "the discrete-gradient stress / midpoint update is no longer the formula the theorems are about: %s" % ex,
                       {"construct": str(ex), "theorems": "gonzalez_discrete_gradient, midpoint_energy_partial"}, found_input=False)
+    de_ok = True
+    try:
+        open(os.path.join(ctx.build, "Gen_De.v"), "w").write(H.emit_de(ctx.repo))
+        ctx.obligation("translate:build-de", True, "__Build_De rows (2-D and 3-D)")
+    except (TranslateError, SyntaxError, OSError, IndexError, AttributeError) as ex:
+        de_ok = False
+        ctx.obligation("translate:build-de", False, str(ex))
+        ctx.violation("translate:build-de", "HyperElasticState.__Build_De is outside the translated grammar: %s" % ex,
+                      {"construct": str(ex), "theorems": "De3_is_sym_GT_grad, element_midpoint_strain_increment"}, found_input=False)
     cc_files = []
     try:
         cct = H.emit_cc(ctx.repo, ctx.tier)
@@ -815,17 +829,21 @@ def run(ctx):
     impl_future = impl_pool.submit(ctx.impl_python, os.path.join(common.VERIF, "corr", "C18_impl.py"), (), 1500, json.dumps(req))
     # ---- 2. proofs --------------------------------------------------------------------
     ctx.copy_props("C18/C18_tac.v", "C18/C18_InvDefs.v", "C18/C18_invariants.v", "C18/C18_pdderive.v", "C18/C18_kinematics.v",
-                   "C18/C18_gonzalez.v", "C18/C18_energy.v")
-    r0 = ctx.coq(["C18_tac.v", "Gen_HyperLaws.v"], timeout=300)
+                   "C18/C18_gonzalez.v", "C18/C18_energy.v", "C18/C18_gradtac.v", "C18/C18_element.v")
+    r0 = ctx.coq(["C18_tac.v", "Gen_HyperLaws.v", "Gen_HyperComp.v", "C18_gradtac.v"], timeout=300)
     chains = [["C18_InvDefs.v", "Gen_HyperInv.v", "C18_invariants.v", "C18_pdderive.v"]]
     if energy_ok:
         chains.append(["Gen_Gonzalez.v", "C18_gonzalez.v", "C18_energy.v"])
     if r0.ok:
-        chains += [["Gen_Law_%s.v" % n] for n in laws] + [["C18_kinematics.v", "Gen_HyperRef.v"]]
+        chains += [["Gen_Law_%s.v" % n] for n in laws] + [["C18_kinematics.v", "Gen_HyperRef.v"] + (["Gen_De.v", "C18_element.v"] if de_ok else [])]
+        chains += [["Gen_HyperGrad_%s.v" % n] for n in iso] if ctx.tier == "thorough" else [["Gen_HyperGrad_%s.v" % n for n in iso]]
     rcc = ctx.coq(["Gen_CC_defs.v"], timeout=300, count=False) if cc_files else None
     if rcc is not None and rcc.ok:
         chains += [[f] for f in cc_files]
-    with ThreadPoolExecutor(max_workers=min(8, os.cpu_count() or 2)) as ex:
+    # longest chains first (HolzapfelOgden tables, kinematics + reference state + element, Clenshaw-Curtis sums)
+    weight = lambda fs: -sum({"Gen_Law_HolzapfelOgden.v": 45, "C18_kinematics.v": 35, "Gen_HyperRef.v": 12, "Gen_CC_sum.v": 47, "C18_element.v": 8}.get(f, 12 if f.startswith("Gen_HyperGrad") else 6) for f in fs)
+    chains.sort(key=weight)
+    with ThreadPoolExecutor(max_workers=min(4, os.cpu_count() or 2)) as ex:
         results = list(ex.map(lambda fs: ctx.coq(fs, timeout=900), chains))
     allres = [r0] + ([rcc] if rcc is not None else []) + results
     proof_ok = all(r.ok for r in allres)
